@@ -37,12 +37,26 @@ def add(a, b):
     return TOP
 
 
+def join(a, b):
+    """least upper bound: the sign of a value that is either of sign a or of sign b"""
+    if a == b:
+        return a
+    s = {a, b}
+    if s <= {POS, NNEG, ZERO}:
+        return NNEG
+    if s <= {NEG, NPOS, ZERO}:
+        return NPOS
+    return TOP
+
+
 def sign(e, table):
     """table: callable(expr) -> sign or None for atoms/functions it knows"""
     e = sp.sympify(e)
     t = table(e)
     if t is not None:
         return t
+    if e.is_Function and e.func.__name__ == "ite" and len(e.args) == 3:
+        return join(sign(e.args[1], table), sign(e.args[2], table))
     if e.is_Number:
         return ZERO if e == 0 else (POS if e > 0 else NEG)
     if e.is_Mul:
@@ -51,6 +65,12 @@ def sign(e, table):
             s = mul(s, sign(a, table))
         return s
     if e.is_Add:
+        # a*(...) written out as a sum: look at the factored form first
+        ft = sp.factor_terms(e)
+        if ft.is_Mul and ft != e:
+            s_ = sign(ft, table)
+            if s_ != TOP:
+                return s_
         # 1 - exp(-t), t >= 0  in [0,1)
         if len(e.args) == 2:
             c = [a for a in e.args if a.is_Number]
